@@ -38,13 +38,27 @@ func minBig(a, b *big.Int) *big.Int {
 
 // ---- weighted draw helper ----
 
-// pick draws an index according to integer weights.
+// uniformN draws a (nearly exactly) uniform integer in [0,n), n <= 4096. rapid's integer and index generators
+// are deliberately biased towards small values; only the 2-valued Bool is uniform, so 12 fair bits are combined.
+// Shrinks towards 0.
+func uniformN(rt *rapid.T, label string, n int) int {
+	x := 0
+	for i := 0; i < 12; i++ {
+		x <<= 1
+		if rapid.Bool().Draw(rt, label) {
+			x |= 1
+		}
+	}
+	return x * n / 4096
+}
+
+// pick draws an index according to integer weights (honoured, see uniformN).
 func pick(rt *rapid.T, label string, weights ...int) int {
 	total := 0
 	for _, w := range weights {
 		total += w
 	}
-	x := rapid.IntRange(0, total-1).Draw(rt, label)
+	x := uniformN(rt, label, total)
 	for i, w := range weights {
 		if x < w {
 			return i
